@@ -204,9 +204,23 @@ func (w *world) candidates(r *coqfmt.Rng, p policy, allowNew bool) []cand {
 	start(&opT{K: "events"}, p.events)
 	if ws := w.watchingSources(); len(ws) > 0 && offerer == nil && (p.twoArms || !w.monAlive() || (!w.mainDone && len(w.ctlq) == 0)) {
 		src := coqfmt.Pick(r, ws)
-		start(&opT{K: "offer", Msg: &msgT{K: "update", Src: src, V: w.genValue(r, p), Blocking: r.Intn(10) < p.blocking}}, p.report)
-		start(&opT{K: "offer", Msg: &msgT{K: "err", Src: src}}, p.reportErr)
-		start(&opT{K: "offer", Msg: &msgT{K: "done", Src: src}}, p.done)
+		switch {
+		case w.isBlank(src) && !w.blankLock[src]:
+			// updates of a Blank go through SetSource (a blocking report)
+			if !w.blankBusy(src) {
+				via := "static"
+				if r.Chance(1, 4) {
+					via = "watcher"
+				}
+				start(&opT{K: "offer", Via: via, Msg: &msgT{K: "update", Src: src, V: w.genValue(r, p), Blocking: true}}, p.report)
+			}
+		case w.isBlank(src) && (!w.hasWA(src) || w.blankBusy(src)):
+			// the Blank's Watcher has not been given the WatchArgs (yet)
+		default:
+			start(&opT{K: "offer", Msg: &msgT{K: "update", Src: src, V: w.genValue(r, p), Blocking: r.Intn(10) < p.blocking}}, p.report)
+			start(&opT{K: "offer", Msg: &msgT{K: "err", Src: src}}, p.reportErr)
+			start(&opT{K: "offer", Msg: &msgT{K: "done", Src: src}}, p.done)
+		}
 	}
 	{
 		op := &opT{K: "register", H: w.nextH}
@@ -376,6 +390,17 @@ func genSetup(r *coqfmt.Rng, focus, mode string) setupT {
 	}
 	if mode != "nomon" && r.Chance(9, 10) {
 		s.Watching[r.Intn(n)] = true
+	}
+	if focus == "C07" && mode != "nomon" && r.Chance(1, 3) {
+		// one watching source is a sourcewrap.Blank (starts empty)
+		for i := range s.Watching {
+			if s.Watching[i] {
+				s.Blank = make([]bool, n)
+				s.Blank[i] = true
+				s.Inits[i] = svJSON{}
+				break
+			}
+		}
 	}
 	return s
 }
@@ -576,6 +601,23 @@ var scripts = map[string]script{
 		w.finish(t)
 		w.drainCb()
 	}},
+	// C07: Blank.SetSource is a blocking report: static and Watcher inner sources, a value failing Verify
+	"blank-setsource": {setupT{Def: [3]int{1, 5, 0}, Watching: []bool{true}, Blank: []bool{true}, Inits: []svJSON{{}}}, func(w *world) {
+		set := func(via string, v svJSON) {
+			tid := w.startOp(&opT{K: "offer", Via: via, Msg: &msgT{K: "update", Src: 0, V: v, Blocking: true}})
+			w.do(label{K: "recv", Src: "offer", Tid: tid})
+			w.startOp(&opT{K: "view"}) // right after the monitor took the value: nothing installed yet, SetSource has not returned
+			w.drainMon()
+			w.finish(tid)
+			w.startOp(&opT{K: "view"})
+		}
+		set("static", svJSON{C: iptr(3)})
+		set("static", svJSON{A: iptr(9)}) // fails Verify: SetSource returns the error, view unchanged
+		set("watcher", svJSON{C: iptr(4)})
+		w.report(0, svJSON{C: iptr(5)}, true) // the Watcher inner source now reports by itself
+		w.drainMon()
+		w.drainCb()
+	}},
 	// C09: enable fails, then succeeds after a fixing update
 	"enable-retry": {withParams(setupT{Def: [3]int{7, 5, 0}, Watching: []bool{true}, Inits: []svJSON{{}}}, false, true, true), func(w *world) {
 		w.report(0, svJSON{C: iptr(1)}, false) // installed unverified, global callbacks suppressed
@@ -603,7 +645,7 @@ var scripts = map[string]script{
 
 var scriptOrder = []string{"late-register", "double-unregister", "srcerr-delay-nosuppress", "srcerr-after-enable-suppress",
 	"enable-nomon", "enable-nomon-invalid", "race-register-after-store", "race-catchup", "abandoned-caller",
-	"blocked-callback", "overflow", "rejections", "enable-retry"}
+	"blocked-callback", "overflow", "rejections", "enable-retry", "blank-setsource"}
 
 func init() {
 	for _, n := range scriptOrder {
